@@ -299,6 +299,66 @@ theorem espec_nesting_limit_test :
   decide +kernel
 
 open Cascette.Model in
+/-- ESPEC: `NestingTooDeep` is raised exactly when the 65th `parse_espec` frame is asked for — in
+every mode (`parse_espec`, `parse_espec_inner`, the chunk loop), for every input and fuel: the
+model counts a level in `parse_espec` only, and EVERY recursive production (`e:{k,iv,…}`, `b:…`,
+`b:<size>=…`, each chunk of `b:{…}`) goes back through it. -/
+theorem espec_go_deep_iff (fuel : Nat) (m : ParseFronts.ESpec.Mode) (d : Nat) (s : List Char) (h : d ≤ 64) :
+    (ParseFronts.ESpec.go fuel m d s).2 = 65 ↔ ∃ r, (ParseFronts.ESpec.go fuel m d s).1 = .deep r :=
+  Proofs.ParseFronts.ESpec.go_deep_iff fuel m d s h
+
+open Cascette.Model in
+/-- the same for `Parser::parse`: the answer is `Err(NestingTooDeep(pos))` iff the deepest frame is
+the 65th. -/
+theorem espec_parse_deep_iff (s : List Char) :
+    (ParseFronts.ESpec.parse s).2 = 65 ↔ ∃ p, (ParseFronts.ESpec.parseX s).1 = .deep p :=
+  Proofs.ParseFronts.ESpec.parse_deep_iff s
+
+open Cascette.Model Proofs.ParseFronts.ESpec in
+/-- ESPEC, the brace-less block-table shorthand with a size spec (`b:1=`, `b:*=`, `b:256K*4=`,
+`b:16K*=`, `b:1M=`): each such prefix costs exactly one counted level — after it, `parse_espec`
+entered at depth `d < 64` continues with `parse_espec` at depth `d + 1`, for every rest of the
+input and every fuel. (This is the production a change to `parse_espec_inner` would un-count.) -/
+theorem espec_sized_shorthand_counted :
+    Transparent "b:1=".toList ∧ Transparent "b:*=".toList ∧ Transparent "b:256K*4=".toList ∧
+    Transparent "b:16K*=".toList ∧ Transparent "b:1M=".toList :=
+  ⟨transparent_b1, transparent_bstar, transparent_b256K4, transparent_b16Kstar, transparent_b1M⟩
+
+open Cascette.Model Proofs.ParseFronts.ESpec in
+/-- ESPEC, unbounded nesting through one counted brace-less production `p`: `pⁿ n` parses with
+`n + 1` frames for `n ≤ 63` and is refused with `NestingTooDeep(64·|p|)` at frame 65 for EVERY
+`n ≥ 64` (a million levels cost no more stack than 64). -/
+theorem espec_transparent_nest (p : List Char) (hp : Transparent p) (hne : p ≠ []) (n : Nat) :
+    ParseFronts.ESpec.parseX (nest p n ['n']) =
+      if n ≤ 63 then (.ok, n + 1) else (.deep (64 * p.length), 65) :=
+  nest_parse p hp hne n
+
+open Cascette.Model Proofs.ParseFronts.ESpec in
+/-- instance: the witness family of the sized shorthand, `"b:1=".repeat(n) + "n"`, for every `n`. -/
+theorem espec_sized_shorthand_nest (n : Nat) :
+    ParseFronts.ESpec.parseX (nest "b:1=".toList n ['n']) = if n ≤ 63 then (.ok, n + 1) else (.deep 256, 65) :=
+  nest_parse _ transparent_b1 (by decide) n
+
+/-- `pre`ⁿ `core` `post`ⁿ. -/
+def espWrap (pre post : String) (n : Nat) (core : String) : List Char :=
+  (List.replicate n pre.toList).flatten ++ core.toList ++ (List.replicate n post.toList).flatten
+
+open Cascette.Model.ParseFronts.ESpec in
+/-- TEST (kernel evaluation): the productions with closers at the limit — `e:{key,iv,…}`, `b:{*=…}`,
+a LATER chunk of a multi-chunk table (whose first chunk `1=n` is itself a counted frame, hence the
+refusal inside the 64th prefix), and a mixture of four productions per block. -/
+theorem espec_nesting_productions_test :
+    parseX (espWrap "e:{237DA26C65073F42,06FC152E," "}" 63 "n") = (.ok, 64) ∧
+    parseX (espWrap "e:{237DA26C65073F42,06FC152E," "}" 64 "n") = (.deep (64 * 29), 65) ∧
+    parseX (espWrap "b:{*=" "}" 63 "z") = (.ok, 64) ∧
+    parseX (espWrap "b:{*=" "}" 64 "z") = (.deep (64 * 5), 65) ∧
+    parseX (espWrap "b:{1=n,2K*3=" ",*=z}" 63 "c:{3}") = (.ok, 64) ∧
+    parseX (espWrap "b:{1=n,2K*3=" ",*=z}" 64 "c:{3}") = (.deep (63 * 12 + 5), 65) ∧
+    parseX (espWrap "b:1=b:{16K*=e:{0123456789abcdef,00,b:" "}}" 15 "n") = (.ok, 61) ∧
+    parseX (espWrap "b:1=b:{16K*=e:{0123456789abcdef,00,b:" "}}" 16 "n") = (.deep (16 * 37), 65) := by
+  decide +kernel
+
+open Cascette.Model in
 /-- LOCAL HEADER `blte_size` (fix 84a8898, saturating): never above the stored size — it cannot wrap. -/
 theorem lhdr_blte_size_le (b : Bytes) : ParseFronts.LHdr.blteSize b ≤ (ParseFronts.LHdr.sizeWithHeader b).toNat :=
   Proofs.ParseFronts.LHdr.blteSize_le b
